@@ -433,6 +433,32 @@ func validateSecurityRequirement(ctx context.Context, input *RequestValidationIn
 		}
 	}
 
+	// restoreBody puts the data that was read back into the request, so that the next
+	// reader (an AuthenticationFunc, the next requirement, body validation, the handler)
+	// sees the whole body again.
+	restoreBody := func() {
+		if data == nil {
+			return
+		}
+		var err error
+		input.Request.Body = nil
+		if input.Request.GetBody != nil {
+			if input.Request.Body, err = input.Request.GetBody(); err != nil {
+				input.Request.Body = nil
+			}
+		}
+		if input.Request.Body == nil {
+			input.Request.ContentLength = int64(len(data))
+			input.Request.GetBody = func() (io.ReadCloser, error) {
+				return io.NopCloser(bytes.NewReader(data)), nil
+			}
+			input.Request.Body, _ = input.Request.GetBody() // no error return
+		}
+	}
+	// if there was a request body, then make sure we put it back into the `input`,
+	// however this function returns
+	defer restoreBody()
+
 	// For each scheme for the requirement
 	for _, name := range names {
 		var securityScheme *openapi3.SecurityScheme
@@ -450,23 +476,7 @@ func validateSecurityRequirement(ctx context.Context, input *RequestValidationIn
 		scopes := securityRequirement[name]
 
 		// if there was a request body, then make sure we provide a new copy of the body in the `input`
-		if data != nil {
-			var err error
-			// Put the data back into the input
-			input.Request.Body = nil
-			if input.Request.GetBody != nil {
-				if input.Request.Body, err = input.Request.GetBody(); err != nil {
-					input.Request.Body = nil
-				}
-			}
-			if input.Request.Body == nil {
-				input.Request.ContentLength = int64(len(data))
-				input.Request.GetBody = func() (io.ReadCloser, error) {
-					return io.NopCloser(bytes.NewReader(data)), nil
-				}
-				input.Request.Body, _ = input.Request.GetBody() // no error return
-			}
-		}
+		restoreBody()
 
 		if err := f(ctx, &AuthenticationInput{
 			RequestValidationInput: input,
@@ -478,23 +488,5 @@ func validateSecurityRequirement(ctx context.Context, input *RequestValidationIn
 		}
 	}
 
-	// if there was a request body, then make sure we put it back into the `input`
-	if data != nil {
-		var err error
-		// Put the data back into the input
-		input.Request.Body = nil
-		if input.Request.GetBody != nil {
-			if input.Request.Body, err = input.Request.GetBody(); err != nil {
-				input.Request.Body = nil
-			}
-		}
-		if input.Request.Body == nil {
-			input.Request.ContentLength = int64(len(data))
-			input.Request.GetBody = func() (io.ReadCloser, error) {
-				return io.NopCloser(bytes.NewReader(data)), nil
-			}
-			input.Request.Body, _ = input.Request.GetBody() // no error return
-		}
-	}
 	return nil
 }
